@@ -291,6 +291,10 @@ def judge(cases, obs, tier):
         elif c["kind"] == "malformed" and o["outcome"] != "err":
             oracle[i] = "malformed query accepted as %s" % (o.get("query"),)
         code = {"nil": 0, "err": 1, "ok": 2}[o["outcome"]]
+        # the table name is upper-cased with Go's Unicode tables; the Coq model maps ASCII only (stated limit): a
+        # mutated query that moves a non-ASCII word into the table position is judged by the oracle alone
+        if o["outcome"] == "ok" and any(ord(ch) > 127 for ch in (o["query"].get("table") or "")):
+            continue
         ft = vf.cq_list(["(%s, %s)" % (vf.cq_bytes(bytes.fromhex(k)), vf.cq_bool(v)) for k, v in o["floats"].items()])
         it = vf.cq_list(["(%s, %s)" % (vf.cq_bytes(bytes.fromhex(k)), ("(Some %s)" % vf.cq_z(v)) if v is not None else "None") for k, v in o["ints"].items()])
         obsq = "(Some %s)" % _cq_obs(o["query"]) if o["outcome"] == "ok" else "None"
